@@ -3,6 +3,7 @@ import CoolerModel.Basic
 import CoolerModel.Model.Bins
 import CoolerModel.Model.FileModel
 import CoolerModel.Model.CSR
+import CoolerModel.Model.Index
 import CoolerModel.Model.Balanced
 import CoolerModel.Model.Strings
 import CoolerModel.Model.Rename
